@@ -351,6 +351,31 @@ static void variant_ptr(uint64_t off, uint64_t& idx)
     });
   };
   explore("copy_and_verify(value)", tag, setup, body2, { M_FLIP, M_OVERWRITE }, idx);
+  // by-reference verifier parameters
+  Variant body3 = [=](Verdict& vd) {
+    auto p = sp<T>(off);
+    p->copy_and_verify([&](const T& v) -> T {
+      if (!outside_all(&v, sizeof(T))) vd.problems.push_back("verifier-object-in-sandbox: value handed to a by-reference verifier lies in sandbox memory");
+      T seen = v;
+      verifier_entry_attack();
+      if (v != seen) vd.problems.push_back("changed-during-verifier: value changed under a by-reference verifier");
+      if (!in_history(0, GW, (i128)seen)) vd.problems.push_back("value-never-held: " + str((i128)seen) + " was never the content of the source");
+      return seen;
+    });
+  };
+  explore("copy_and_verify(value, const&)", tag, setup, body3, { M_FLIP, M_OVERWRITE }, idx);
+  Variant body4 = [=](Verdict& vd) {
+    auto p = sp<T>(off);
+    p.copy_and_verify([&](const std::unique_ptr<T>& v) -> T {
+      if (!outside_all(v.get(), sizeof(T))) vd.problems.push_back("verifier-object-in-sandbox: object handed to a by-reference verifier lies in sandbox memory");
+      T seen = *v;
+      verifier_entry_attack();
+      if (*v != seen) vd.problems.push_back("changed-during-verifier: content changed under a by-reference verifier");
+      if (!in_history(0, GW, (i128)seen)) vd.problems.push_back("value-never-held: " + str((i128)seen));
+      return seen;
+    });
+  };
+  explore("copy_and_verify(pointer, const unique_ptr&)", tag, setup, body4, { M_FLIP, M_OVERWRITE }, idx);
 }
 
 static void variant_array(uint64_t off, uint64_t& idx)
@@ -375,6 +400,33 @@ static void variant_array(uint64_t off, uint64_t& idx)
     });
   };
   explore("copy_and_verify(array)", tag, setup, body, { M_FLIP, M_FLIP1, M_OVERWRITE }, idx);
+  // verifiers that take their parameter BY REFERENCE see whatever object the library hands over: it must be a copy in application memory
+  Variant body_ref = [=](Verdict& vd) {
+    auto p = sp<int[4]>(off);
+    (*p).copy_and_verify([&](const std::array<int, 4>& a) {
+      if (!outside_all(&a, sizeof a)) vd.problems.push_back("verifier-object-in-sandbox: array handed to a by-reference verifier lies in sandbox memory");
+      auto seen = a;
+      verifier_entry_attack();
+      if (a != seen) vd.problems.push_back("changed-during-verifier: array changed under a by-reference verifier");
+      for (int i = 0; i < 4; i++)
+        if (!in_history(i * 4, 4, (i128)seen[i])) vd.problems.push_back("value-never-held: element " + std::to_string(i));
+      return 0;
+    });
+  };
+  explore("copy_and_verify(array, const&)", tag, setup, body_ref, { M_FLIP, M_OVERWRITE }, idx);
+  Variant body_auto = [=](Verdict& vd) {
+    auto p = sp<short[8]>(off);
+    (*p).copy_and_verify([&](const auto& a) {
+      if (!outside_all(&a, sizeof a)) vd.problems.push_back("verifier-object-in-sandbox: array handed to a by-reference verifier lies in sandbox memory");
+      auto seen = a;
+      verifier_entry_attack();
+      if (a != seen) vd.problems.push_back("changed-during-verifier: array changed under a by-reference verifier");
+      for (int i = 0; i < 8; i++)
+        if (!in_history(i * 2, 2, (i128)seen[i])) vd.problems.push_back("value-never-held: element " + std::to_string(i));
+      return 0;
+    });
+  };
+  explore("copy_and_verify(array, const auto&)", tag, setup, body_auto, { M_FLIP, M_OVERWRITE }, idx);
 }
 
 static void variant_struct(uint64_t off, uint64_t& idx)
